@@ -441,6 +441,10 @@ impl MSink {
                     n.children.clone(),
                 )
             };
+            let src_contents = match &kind {
+                Kind::Element { contents, .. } => *contents,
+                _ => None,
+            };
             let kind = match kind {
                 Kind::Element { attrs, mathml_ip, dup, script_started, .. } => {
                     Kind::Element { attrs, contents: None, mathml_ip, dup, script_started }
@@ -448,6 +452,17 @@ impl MSink {
                 k => k,
             };
             let h = self.new_node(kind, name);
+            // a template's cloning steps copy its contents too
+            if let Some(sc) = src_contents {
+                let f = self.new_node(Kind::Fragment { host: h.id }, None);
+                if let Kind::Element { ref mut contents, .. } = self.inner.borrow_mut().nodes[h.id].kind {
+                    *contents = Some(f.id);
+                }
+                let ckids = self.inner.borrow().nodes[sc].children.clone();
+                for &k in ckids.iter().rev() {
+                    stack.push((k, Some(f.id)));
+                }
+            }
             {
                 let mut i = self.inner.borrow_mut();
                 i.nodes[h.id].parent = cparent;
